@@ -12,11 +12,11 @@ COMMON_TB = [
 PROPS = {
     "C12": {
         "title": "Log files return exactly the records appended",
-        "technique": "Lean 4 theorems (round trip for all record lengths and session splits, truncation at every byte, writer death between fragments) over a model of logs.rs + byte-exact differential test of LogWriter/LogReader against the compiled model + the same oracles on the crate's real disk-backed filesystem (TmpFileSystem in a scratch directory): generated histories with clean close + reopen and a log appended to in two sessions",
+        "technique": "Lean 4 theorems (round trip for all record lengths and session splits, truncation at every byte, writer death between fragments) over a model of logs.rs + byte-exact differential test of LogWriter/LogReader against the compiled model + the same oracles on the crate's real disk-backed filesystem (TmpFileSystem in a scratch directory): generated histories with clean close + reopen and a log appended to in two sessions + the log reader's corruption flag (what manifest recovery consults): Lean 4 model readAllF with proofs that it never fires on a written log, cut or not (C15_log_no_false_positive, C15_log_torn_write_not_corruption), fires on Last->First and Full->Last/Middle type damage, and kernel-checked witnesses of the transitions it cannot see (Full->First and Last->Middle at the end of the file, a raised length byte); flags and records of the real reader are compared with the model on every generated log and on damaged variants of it",
         "level_text": "Machine-checked proof over the Lean model of LogWriter/LogReader for every block size, checksum function, record list, session split, truncation point and fragment cut; the model is tied to the code on every run by byte-exact comparison of file contents and reader output, exhaustively around the block-boundary arithmetic, and the round-trip/truncation/partial-append oracle is evaluated on the implementation itself.",
         "design_ref": "5 (C12)",
         "level": "proof",
-        "lean_modules": ["Rain.Props.C12", "Rain.Legacy.LogD8"],
+        "lean_modules": ["Rain.Props.C12", "Rain.Legacy.LogD8", "Rain.Props.LogFlags"],
         "components": ["c12", "disk"],
         "sig_prefixes": ["c12:", "disk:"],
         "trusted_base": COMMON_TB + [
@@ -168,7 +168,7 @@ PROPS["C16"] = {
 }
 PROPS["C08"] = {
     "level": "proof", "title": "I/O failures are reported, never swallowed; nothing acknowledged is lost",
-    "lean_modules": ["Rain.Props.Durable", "Rain.Props.Proto"], "components": ["c08"], "sig_prefixes": ["c08:", "c09:", "c11:file-needed"],
+    "lean_modules": ["Rain.Props.Durable", "Rain.Props.Proto"], "components": ["c08", "disk"], "sig_prefixes": ["c08:", "c09:", "c11:file-needed", "disk:"],
     "technique": "Lean 4: a failed filesystem call is an absent operation of the durability model, so the image stays safe for the acknowledged batches (step_safe / C16_incomplete_operation_changes_nothing), write-ahead order at protocol level (C05_wal_before_memtable) + exhaustive single-fault enumeration on the real code (every call position, transient and sticky) with a possible-values oracle, and the stream of completed operations under faults checked by the durability monitor",
     "level_text": "The proof part is partial by nature: it shows that the persistent image cannot be harmed by operations that fail (they are absent from the monitored stream) and that the ordering discipline keeps every acknowledged batch recoverable; whether each API call REPORTS the failure is decided on the real code by fault enumeration: for generated histories every position of the filesystem call stream (create, write/append, rename, remove, open-for-read, size, list, lock) is armed in turn, once and persistently; every API result is recorded (Ok writes must be visible to every later successful read, Err writes may or may not be applied, failed batches all-or-nothing), then the fault is removed, the database reopened and compared; the completed-operation streams of fault runs are fed to the durability monitor. Two findings (read errors swallowed by table iterators) are recorded as known findings.",
     "design_ref": "5 (C08)", "trusted_base": DUR_TB,
@@ -176,8 +176,8 @@ PROPS["C08"] = {
 }
 PROPS["C15"] = {
     "level": "proof", "title": "Corrupted files are detected, never served as data",
-    "lean_modules": ["Rain.Props.C15", "Rain.Props.Codec"], "components": ["c15", "codec"], "sig_prefixes": ["c15:", "codec:"],
-    "technique": "Lean 4 theorems for the checksum-protected spans (every single-byte change of a table block or of a log fragment's payload/checksum is rejected, under the explicit hypothesis that the checksum detects one-byte changes; kernel-checked witnesses that fragment length and type bytes are unprotected) + exhaustive single-byte corruption (flip, zero, random) and truncation of every persistent file of small database images on the real code + record codecs: Lean 4 model of the write-batch record and the manifest record with theorems for ALL records (round trip, injectivity, every proper prefix of a batch record is rejected, trailing bytes / torn fields of a manifest record are rejected, field-boundary cuts are exactly the shorter records); the real encoders and decoders are run against the model on generated records and on damaged encodings",
+    "lean_modules": ["Rain.Props.C15", "Rain.Props.Codec", "Rain.Props.LogFlags"], "components": ["c15", "codec", "c12"], "sig_prefixes": ["c15:", "codec:", "c12:"],
+    "technique": "Lean 4 theorems for the checksum-protected spans (every single-byte change of a table block or of a log fragment's payload/checksum is rejected, under the explicit hypothesis that the checksum detects one-byte changes; kernel-checked witnesses that fragment length and type bytes are unprotected) + exhaustive single-byte corruption (flip, zero, random) and truncation of every persistent file of small database images on the real code + record codecs: Lean 4 model of the write-batch record and the manifest record with theorems for ALL records (round trip, injectivity, every proper prefix of a batch record is rejected, trailing bytes / torn fields of a manifest record are rejected, field-boundary cuts are exactly the shorter records); the real encoders and decoders are run against the model on generated records and on damaged encodings + the log reader's corruption flag (what manifest recovery consults): Lean 4 model readAllF with proofs that it never fires on a written log, cut or not (C15_log_no_false_positive, C15_log_torn_write_not_corruption), fires on Last->First and Full->Last/Middle type damage, and kernel-checked witnesses of the transitions it cannot see (Full->First and Last->Middle at the end of the file, a raised length byte); flags and records of the real reader are compared with the model on every generated log and on damaged variants of it",
     "level_text": "Proof for the CRC-protected spans only (under the named hypothesis DetectsOneByte, never an axiom); the format has no integrity evidence for log-fragment length/type bytes, footer handles and CURRENT, so those are decided by exhaustive per-offset exploration of generated images (a test, labelled as such): every offset of every table, WAL, manifest and CURRENT file (an even sample for larger files) x {bit flip, zero, random byte} plus table truncations; each mutated image is opened, scanned and probed with gets; allowed outcomes are an error, the exact expected contents, or (WAL only) the replay with one contiguous run of damaged batches skipped; panics, hangs and aborts are failures.",
     "design_ref": "5 (C15)", "trusted_base": DB_TB + ["CRC-32C detects every single-byte change (validated on every mutation of the exploration, not proved)"],
     "assumptions": ["single-byte corruptions and truncations only", "three format-level / iterator-API findings are recorded as known findings and reported by KNOWN-FINDING lines"],
